@@ -18,8 +18,9 @@ import (
 
 // An operand of the numeric universe, in JSON-able form.
 type numOp struct {
-	Kind string  `json:"kind"` // int | float | str | nil
+	Kind string  `json:"kind"` // int | uint (bound as a uint64) | float | str | nil
 	I    int64   `json:"i,omitempty"`
+	U    uint64  `json:"u,omitempty"`
 	F    float64 `json:"f,omitempty"`
 	S    string  `json:"s,omitempty"`
 }
@@ -28,6 +29,8 @@ func (o numOp) goValue() any {
 	switch o.Kind {
 	case "int":
 		return int(o.I)
+	case "uint":
+		return o.U
 	case "float":
 		return o.F
 	case "str":
@@ -40,6 +43,8 @@ func (o numOp) String() string {
 	switch o.Kind {
 	case "int":
 		return fmt.Sprint(o.I)
+	case "uint":
+		return fmt.Sprint(o.U) + "u"
 	case "float":
 		return strconv.FormatFloat(o.F, 'g', -1, 64) + "f"
 	case "str":
@@ -53,6 +58,8 @@ func (o numOp) rat(receiver bool) (r *big.Rat, ok, unspecified bool) {
 	switch o.Kind {
 	case "int":
 		return new(big.Rat).SetInt64(o.I), true, false
+	case "uint":
+		return new(big.Rat).SetInt(new(big.Int).SetUint64(o.U)), true, false
 	case "float":
 		return new(big.Rat).SetFloat64(o.F), true, false
 	case "str":
@@ -164,7 +171,7 @@ func c17Model(filter string, a *big.Rat, bo *numOp) c17Exp {
 		if !ok {
 			return c17Exp{err: true}
 		}
-		b, bInt = r, bo.Kind == "int"
+		b, bInt = r, bo.Kind == "int" || bo.Kind == "uint"
 	}
 	switch filter {
 	case "plus":
@@ -352,6 +359,10 @@ func c17Universe() []numOp {
 	}
 	for _, i := range []int64{1 << 31, -(1 << 31), 1<<53 - 1, -(1<<53 - 1), 1 << 53} {
 		u = append(u, numOp{Kind: "int", I: i})
+	}
+	// unsigned integers, also beyond the signed range
+	for _, i := range []uint64{3, 1 << 63, math.MaxUint64} {
+		u = append(u, numOp{Kind: "uint", U: i})
 	}
 	for k := -20; k <= 20; k++ {
 		u = append(u, numOp{Kind: "float", F: float64(k) / 4})
